@@ -159,10 +159,10 @@ with alpha_a : ctx -> passign -> passign -> ctx -> Prop :=
     alpha_a G (AAccess a i sp) (AAccess a' i' sp) G
 (* `a.x`, undetermined: the prefix is renamed as a namespace path would be, and also as an expression
    (the code decides at run time which of the two it is: it is the same decision on both sides) *)
-| aa_access_ns G G1 a a' i i' sp :
-    alpha_ns a a' -> alpha_a G a a' G1 -> i_name i = i_name i' -> i_span i = i_span i' ->
+| aa_access_ns G a a' i i' sp :
+    alpha_ns a a' -> alpha_a G a a' G -> i_name i = i_name i' -> i_span i = i_span i' ->
     g (i_name i) = i_name i' ->
-    alpha_a G (AAccess a i sp) (AAccess a' i' sp) G1
+    alpha_a G (AAccess a i sp) (AAccess a' i' sp) G
 (* `a.field`: neither prefix can be a namespace path *)
 | aa_access_field G G1 a a' i sp :
     not_ns (sp_file sp) a -> not_ns (sp_file sp) a' -> alpha_a G a a' G1 ->
